@@ -39,6 +39,11 @@ def sources(tier, seed, ctx):
         r = random.Random(seed * 29 + n)
         outs = gen.pick_outputs(r, ni, len(gs), kind=['last', 'some', 'dup', 'withinput', 'none'][n % 5])
         srcs.append({'k': 'trav', 'net': [ni, gs], 'outs': outs, 'variant': ['plain', 'shuffle'][n % 2], 'vs': n + seed, 'ts': r.randrange(10**6)})
+    # the smallest circuits: nothing at all, a single input, a single constant, two unrelated inputs
+    for net, outs in (((0, []), []), ((1, []), [1]), ((1, []), []), ((0, [('ALWAYS_TRUE', [])]), [1]), ((2, []), [2]), ((1, [('NOT', [1])]), [2])):
+        for v in ('plain',):
+            srcs.append({'k': 'trav', 'net': [net[0], [list(g) for g in net[1]]], 'outs': outs, 'variant': v, 'vs': 1, 'ts': len(srcs)})
+            srcs.append({'k': 'trav', 'net': [net[0], [list(g) for g in net[1]]], 'outs': outs, 'variant': v, 'vs': 2, 'ts': len(srcs) + 7})
     nrand = 300 if tier == 'quick' else 5000
     for j in range(nrand):
         net = gen.random_netlist(rng, ni=rng.randint(1, 5), ng=rng.randint(1, 14))
@@ -66,7 +71,17 @@ def _trav(c, mode, inverse, start, hooks, topo):
     exc = ''
     try:
         fn = c.dfs if mode == 'DFS' else c.bfs
-        for g in fn(start, inverse=inverse, topsort_unvisited=topo, **kw):
+        # keywords whose value is the documented default (forward direction, unvisited gates in storage order) are
+        # left out on every other call
+        if not inverse and (len(ev) + len(c.gates)) % 2 == 0:
+            pass
+        else:
+            kw['inverse'] = inverse
+        if not topo and len(c.gates) % 2 == 1:
+            pass
+        else:
+            kw['topsort_unvisited'] = topo
+        for g in fn(start, **kw):
             ev.append({'e': 'yield', 'l': g.label})
     except Exception as e:
         exc = type(e).__name__
